@@ -393,6 +393,67 @@ func runC02(c *core.Ctx) {
 		}
 	}
 
+	// ---- (a'') boundary values of the intermediate I_L: children whose HMAC output starts with zero bytes (short big-endian
+	// scalars) or with FF (next to the group order), found by scanning 8192 indices per parent with an own HMAC; derived on
+	// the private side and, for non-hardened indices, from the extended public key
+	for _, cv := range curves {
+		for _, sd := range [][]byte{seeds[0], seeds[4]} {
+			m, err := slip10.NewMasterKey(sd, cv.impl)
+			if err != nil {
+				continue
+			}
+			rm := rs.Master(cv.ref, sd)
+			pick := func(base uint32, data []byte) []uint32 {
+				var zero, ff []uint32
+				for i := uint32(0); i < 8192; i++ {
+					I := c02mac(rm.Chain, data, []byte{byte((base + i) >> 24), byte((base + i) >> 16), byte((base + i) >> 8), byte(base + i)})
+					if I[0] == 0 && len(zero) < 8 {
+						zero = append(zero, base+i)
+					}
+					if I[0] == 0xFF && I[1] >= 0xF0 && len(ff) < 3 {
+						ff = append(ff, base+i)
+					}
+				}
+				return append(zero, ff...)
+			}
+			var idxs []uint32
+			if cv.name != "ed25519" {
+				idxs = append(idxs, pick(0, rm.Pub)...)
+			}
+			idxs = append(idxs, pick(1<<31, append([]byte{0}, rm.Priv...))...)
+			for _, idx := range idxs {
+				cas := map[string]interface{}{"curve": cv.name, "seed": fmt.Sprintf("%x", sd), "index": idx, "why": "I_L starts with 00 or FF"}
+				rch, rerr := rm.Child(cv.ref, idx)
+				var ch *slip10.ExtendedKey
+				var cerr error
+				p := core.Catch(func() { ch, cerr = m.DeriveChild(idx) })
+				c.Eval(1)
+				nontriv.Add(1)
+				if p != nil || (cerr != nil) != (rerr != nil) {
+					c.Violate("C02/"+cv.name+"/I_L-boundary/private", fmt.Sprintf("DeriveChild(%d): %v %v, SLIP-0010: %v", idx, p, cerr, rerr), cas, "", nil)
+					continue
+				}
+				if cerr == nil && (!bytes.Equal(ch.Key.Bytes(), rch.Priv) || !bytes.Equal(ch.ChainCode, rch.Chain) || !bytes.Equal(ch.Key.Public().Bytes(), rch.Pub)) {
+					c.Violate("C02/"+cv.name+"/I_L-boundary/private", fmt.Sprintf("DeriveChild(%d) = key %x chain %x pub %x, SLIP-0010: key %x chain %x pub %x", idx, ch.Key.Bytes(), ch.ChainCode, ch.Key.Public().Bytes(), rch.Priv, rch.Chain, rch.Pub), cas, "", nil)
+				}
+				if idx < 1<<31 && cv.name != "ed25519" {
+					rpc, rperr := rm.Public().Child(cv.ref, idx)
+					var pc *slip10.ExtendedKey
+					var perr error
+					p := core.Catch(func() { pc, perr = m.Public().DeriveChild(idx) })
+					c.Eval(1)
+					if p != nil || (perr != nil) != (rperr != nil) {
+						c.Violate("C02/"+cv.name+"/I_L-boundary/public", fmt.Sprintf("Public().DeriveChild(%d): %v %v, SLIP-0010: %v", idx, p, perr, rperr), cas, "", nil)
+						continue
+					}
+					if perr == nil && (!bytes.Equal(pc.Key.Bytes(), rpc.Pub) || !bytes.Equal(pc.ChainCode, rpc.Chain)) {
+						c.Violate("C02/"+cv.name+"/I_L-boundary/public", fmt.Sprintf("Public().DeriveChild(%d) = key %x chain %x, SLIP-0010: key %x chain %x", idx, pc.Key.Bytes(), pc.ChainCode, rpc.Pub, rpc.Chain), cas, "", nil)
+					}
+				}
+			}
+		}
+	}
+
 	// ---- (b) scripted answers ----
 	seqs := c02seqs()
 	c.Set("scripted_sequences", int64(len(seqs)*3))
